@@ -25,6 +25,7 @@ pub fn base(name: &str, property: &'static str) -> ReplCell {
         env: Env::full(),
         oracles: Oracles::default(),
         closure_rounds: 6,
+        junk_acks: false,
     }
 }
 
